@@ -109,6 +109,50 @@ CLAIMED = {
         note="The quadratic step bound is observed (max steps/size^2 reported in the evidence), not proved. "
              "A step the certificate cannot orient is inconclusive, not a violation.",
         ref="4/C11"),
+    "C12": dict(
+        technique=ABSINT.replace(" over an interval-region x symbolic-term domain", "") + " of __eq__/__hash__ over an object pool",
+        text="==, != and hash() are interpreted from source on all ordered pairs of a pool of expressions (all "
+             "constructors; pairs differing in exactly one parameter, leaf, argument position or arity; int/float "
+             "spellings), points and derivative objects (early/late), against foreign objects, and on copies that "
+             "were evaluated/differentiated/simplified; the result must equal the checker's own structural equality, "
+             "be symmetric, never raise, != must negate ==, equal objects must hash equal (abstract hash with "
+             "Python's numeric contract).",
+        note="Bounded pool (about 110 objects, 12k pairs); transitivity follows from coincidence with a structural "
+             "equivalence on every compared pair. NaN parameters excluded.",
+        ref="4/C12"),
+    "C13": dict(
+        technique=ABSINT.replace(" over an interval-region x symbolic-term domain", "") + " of __repr__/__str__ + parse-back of the printed constructor call",
+        text="repr() and str() of a pool of expressions (all constructors and parameter kinds), points and all "
+             "derivative objects are computed by interpreting the source; the text is parsed as a Python expression, "
+             "read as a constructor call with the public signatures and must denote exactly the original object; "
+             "collisions between unequal expressions are checked directly.",
+        note="The float -> text -> float round trip is Python's float.__repr__ and is taken as given.",
+        ref="4/C13"),
+    "C14": dict(
+        technique=ABSINT.replace(" over an interval-region x symbolic-term domain", "") + " over coordinate subsets and names",
+        text="Evaluation and five derivative routes are interpreted on expressions whose variables are fully "
+             "supplied (with extra coordinates; differentiation variable absent when it does not occur): never "
+             "CoordinateMissing; on every proper subset of the variables: never a number; bare numbers and Derivative "
+             "accepted exactly for <= 1 variable; recorded variable sets equal the mentioned variables; legal names "
+             "that collide with the library's own parameter names are used as coordinate names through every entry.",
+        note="Bounded set of expressions and names. Coordinates valued None are outside 'finite points'.",
+        ref="4/C14"),
+    "C15": dict(
+        technique=ABSINT.replace(" over an interval-region x symbolic-term domain", "") + " of the operator dunders",
+        text="-a, a+b, a-b, a*b, a/b, a**b, a**k are interpreted for operands of many shapes (including ones a "
+             "simplifier would touch) and all exponent classes; the object built is read back field by field and must be "
+             "exactly the named constructor applied to the operands in order; non-expression operands on either side "
+             "and exponents that are zero, negative, non-integral, infinite or non-numeric must raise.",
+        note="Bounded operand pool; exponent classes exhaustive for the guards in the source.",
+        ref="4/C15"),
+    "C16": dict(
+        technique=ABSINT.replace(" over an interval-region x symbolic-term domain", "") + " of the constructors over argument classes",
+        text="Every constructor is interpreted on representatives of every argument class (operands of foreign "
+             "types in every position; n over ints/integral floats/non-integral floats/strings/None/inf of any sign; "
+             "bases of any sign incl. 0 and 1; names over word/non-word strings); accept/reject must be the "
+             "documented one and .n/.base/.name/.value must report the argument back (n as the integer).",
+        note="'Rejected' means any exception, as the property states. NaN/inf bases not examined.",
+        ref="4/C16"),
 }
 
 NOT_APPLICABLE = {
